@@ -117,6 +117,12 @@ def build_data(mods, sub, flags, size):
             blk.ahtx, blk.pmx = xval(rng, 'e10.4'), xval(rng, 'e10.4')
         if bit[4] and rng.random() < 0.5:
             blk.nseq, blk.nadd = rng.randint(1, 99999), rng.randint(1, 99999)
+            if rng.random() < 0.3:
+                # either of the two may be absent on its own
+                if rng.random() < 0.5:
+                    blk.nseq = None
+                else:
+                    blk.nadd = None
         g.add_block(blk)
     bl = g.blocklist
     if len(bl) >= 2:
@@ -305,7 +311,7 @@ def build_data(mods, sub, flags, size):
             nvol = max(1, ln())
             dat.meshmaker.append(('minc', {
                 'type': rng.choice(('ONE-D', 'TWO-D', 'THRED')), 'dual': rng.choice(('     ', 'DFLT ')),
-                'num_continua': rng.randint(2, 9), 'where': rng.choice(('OUT ', 'IN  ')),
+                'num_continua': rng.randint(2, 9), 'where': rng.choice(('OUT ', 'IN  ', 'OUT ', None)),
                 'spacing': [val(rng, 'e10.4') for _ in range(7)],
                 'vol': [val(rng, 'e10.4') for _ in range(nvol)]}))
     return dat
@@ -676,7 +682,11 @@ def compare_meshmaker(c, want, got):
                     c.seq('meshm', 'XYZ deli', dw['deli'], dg.get('deli', []), 4, trim=False)
         else:
             for a in ('type', 'dual', 'num_continua', 'where'):
-                c.same('meshm', 'MINC ' + a, w[a], g.get(a))
+                wa, ga = w[a], g.get(a)
+                if a == 'where':
+                    # a text field: None and blanks are the same absence
+                    wa, ga = (wa or '').strip(), (ga or '').strip()
+                c.same('meshm', 'MINC ' + a, wa, ga)
             c.seq('meshm', 'MINC spacing', w['spacing'], g['spacing'], 4)
             c.seq('meshm', 'MINC vol', w['vol'], g['vol'], 4, trim=False)
 
